@@ -78,70 +78,60 @@ def r2_hash_iteration(ctx):
 
 
 def r3_user_generator_kept(ctx):
+    """K6 on optimize_with over the typed store (statemodel): the user's init_state closure runs on the fresh state and
+    either supplies a generator or does not; when the configuration starts, the state holds the user's generator
+    untouched, or - only if none was supplied - exactly one default generator; init_state runs before the generator is
+    looked for and the configuration runs after both."""
+    import statemodel
+    from collmodel import coll_oracle, install, load
     F = ctx.facts
     fn = F.fn("mahf::configuration::Configuration::optimize_with")
+    RND = "mahf::state::random::Random"
     bad = []
     for has in (True, False):
-        log = []
+        store = statemodel.Store(F, levels=1, auto=lambda ty: {})
 
-        def ins(interp, env, f, args):
-            log.append(("insert", (f.get("gargs") or ["?"])[0]))
-            return NONE
-
-        def contains(interp, env, f, args):
-            log.append(("contains", (f.get("gargs") or ["?"])[0]))
-            return has if (f.get("gargs") or [""])[0] == "mahf::state::random::Random" else TOP
-
-        def call_init(interp, env, f, args):
-            log.append(("init_state",))
-            return ok(Agg("tuple", None, None, []))
-
-        def runf(interp, env, f, args):
-            log.append(("run",))
-            return ok(Agg("tuple", None, None, []))
-        def find(interp, env, f, args):
-            log.append(("contains", (f.get("gargs") or ["?"])[0]))
-            if (f.get("gargs") or [""])[0] != "mahf::state::random::Random":
-                return TOP
-            return ok(Sym("found")) if has else err(Sym("StateError::NotFound"))
-        def entry(interp, env, f, args):
-            g = (f.get("gargs") or ["?"])[0]
-            log.append(("contains", g))
-            return Agg("registry-entry", g, "Occupied" if (has and g == "mahf::state::random::Random") else "Vacant", [])
-
-        def or_insert(interp, env, f, args):
-            e = args[0]
-            if isinstance(e, Agg) and e.kind == "registry-entry":
-                if e.variant == "Vacant":
-                    log.append(("insert", e.name))
-                return Sym("entry-value")
+        def oracle(interp, env, f, args, t, bb, path, has=has, store=store):
+            k = f.get("key", "")
+            ms = interp.mstate
+            if k == "core::ops::function::FnOnce::call_once" or (f.get("name") in ("call_once", "call") and args and isinstance(load(interp, env, args[0]), Sym) and load(interp, env, args[0]).tag == "init_state"):
+                ms["log"] = ms.get("log", ()) + (("init_state", tuple(ty.split("::")[-1] for (ty, _l) in ms.get("have", ()))),)
+                if has:
+                    store.put(interp, env, RND, 0, Sym("the-user's-generator"))
+                return ok(Agg("tuple", None, None, []))
+            if k == "mahf::configuration::Configuration::run":
+                v = store.visible_value(interp, env, RND, 0)
+                ms["log"] = ms.get("log", ()) + (("run", repr(v)),)
+                return ok(Agg("tuple", None, None, []))
+            if k in (RDEF, "core::default::Default::default") and not args:
+                n = ms.get("defaults", 0) + 1
+                ms["defaults"] = n
+                return Sym("entropy-random#%d" % n)
             return TOP
-        table = {"mahf::state::registry::StateRegistry::entry": entry, "mahf::state::registry::entry::Entry::or_insert_with": or_insert,
-                 "mahf::state::registry::entry::Entry::or_insert": or_insert, "mahf::state::registry::entry::Entry::or_default": or_insert,
-                 "mahf::state::registry::StateRegistry::insert": ins, "mahf::state::registry::StateRegistry::contains": contains,
-                 "mahf::state::registry::StateRegistry::has": contains, "mahf::state::registry::StateRegistry::find": find,
-                 "mahf::state::registry::StateRegistry::try_borrow": find, "mahf::state::registry::StateRegistry::try_borrow_mut": find, "core::ops::function::FnOnce::call_once": call_init,
-                 "mahf::configuration::Configuration::run": runf, "mahf::state::State::new": Sym("state"), RDEF: Sym("entropy-random"),
-                 "core::default::Default::default": Sym("entropy-random")}
-        helper = lambda k: k.startswith("mahf::configuration::Configuration::") and k not in table and (F.fn_opt(k) is not None and F.fn_opt(k).vis not in ("pub", "public"))
-        it = Interp(fn.body, chain(mk_oracle(table), std_oracle), [Sym("self"), Sym("problem"), TOP], facts=F, inline=helper)
+        helper = lambda k: statemodel.inline(k) or k.startswith("mahf::state::State::new") or (k.startswith("mahf::configuration::Configuration::") and k != "mahf::configuration::Configuration::run"
+                                                    and (F.fn_opt(k) is not None and F.fn_opt(k).vis not in ("pub", "public")))
+        it = install(Interp(fn.body, chain(oracle, store, coll_oracle, std_oracle), [Sym("self"), Sym("problem"), Sym("init_state")], facts=F, inline=helper))
+        it.init_state = {}
+        store.install(it)
         paths = it.run()
         okp = [p for p in paths if p.end == "return" and isinstance(p.ret, Agg) and p.ret.variant == "Ok"]
-        if not okp:
-            bad.append((has, "has no successful path"))
+        if len(paths) != 1 or not okp:
+            bad.append((has, "is not decided / has no successful path (%s)" % [(p.end, str(p.ret)[:40]) for p in paths]))
             continue
-        seq = log
-        rand_ins = [i for i, e in enumerate(seq) if e == ("insert", "mahf::state::random::Random")]
-        inits = [i for i, e in enumerate(seq) if e == ("init_state",)]
-        runs = [i for i, e in enumerate(seq) if e == ("run",)]
-        if has and rand_ins:
-            bad.append((has, "inserts the default generator although the user's init_state supplied one (the seed is replaced)"))
-        if not has and (len(rand_ins) != 1):
-            bad.append((has, "inserts the default generator %d times when none was supplied" % len(rand_ins)))
-        if rand_ins and inits and not (inits[0] < rand_ins[0]):
-            bad.append((has, "inserts the default generator before the user's init_state ran"))
-        if not inits or not runs or not (inits[0] < runs[0]) or (rand_ins and not rand_ins[0] < runs[0]):
-            bad.append((has, "does not run init_state, then the generator check, then the configuration: %s" % seq))
+        p = okp[0]
+        log = list(p.mstate.get("log", ()))
+        kinds = [e[0] for e in log]
+        if kinds != ["init_state", "run"]:
+            bad.append((has, "does not run init_state once and then the configuration once: %s" % kinds))
+            continue
+        if "Random" in log[0][1]:
+            bad.append((has, "inserts a generator before the user's init_state ran"))
+            continue
+        at_run = log[1][1]
+        if has and at_run != repr(Sym("the-user's-generator")):
+            bad.append((has, "starts the configuration with %s as generator although the user's init_state supplied one (the seed is replaced)" % at_run))
+        if not has and at_run != repr(Sym("entropy-random#1")):
+            bad.append((has, "starts the configuration with %s as generator when none was supplied (expected exactly one default generator)" % at_run))
     ctx.check(not bad, "C08.R3", fn.key, "default-generator-only-if-absent", "user supplied a generator: %s - optimize_with %s" % (bad[0] if bad else ("", "")), loc=fn.loc())
 
 
